@@ -55,6 +55,11 @@ M = [
  ('free-T-guess', 'direct_method.py', "                stage.set_initial(stage._T, init,priority=True)\n                return stage._T", "                stage.set_initial(stage._T, init+1,priority=True)\n                return stage._T", ['C11']),
  ('free-t0-as-zero', 'sampling_method.py', "        self.t0 = self.eval(stage, stage._t0)\n", "        self.t0 = self.eval(stage, stage._t0) if ca.MX(self.eval(stage, stage._t0)).is_constant() else 0*self.eval(stage, stage._t0)\n", ['C11']),
  ('tf-placeholder', 'stage.py', "        self._tf = self.T + self.t0", "        self._tf = self.T + 2*self.t0", ['C11', 'C04', 'C05']),
+ # --- C09
+ ('pcontrol-plus-index', 'sampling_method.py', "        return veccat(*[p[k] for p in self.P_control_plus])", "        return veccat(*[p[k if k==-1 else max(k-1,0)] for p in self.P_control_plus])", ['C09']),
+ ('setvalue-after-ignored', 'sampling_method.py', "                found = True\n                opti.set_value(hcat(self.P_control[i]), value)\n        for i, p in enumerate(stage.parameters['control+']):\n            if is_equal(parameter, p):\n                found = True\n                opti.set_value(hcat(self.P_control_plus[i]), value)\n        for p in stage.parameters['bspline']:\n            if is_equal(parameter, p):\n                found = True\n                opti.set_value(self.signals[p].coeff, value)\n        assert found", "                found = True\n        for i, p in enumerate(stage.parameters['control+']):\n            if is_equal(parameter, p):\n                found = True\n                opti.set_value(hcat(self.P_control_plus[i]), value)\n        for p in stage.parameters['bspline']:\n            if is_equal(parameter, p):\n                found = True\n                opti.set_value(self.signals[p].coeff, value)\n        assert found", ['C09']),
+ ('setparam-columns-reversed', 'sampling_method.py', "            opti.set_value(hcat(self.P_control[i]), stage._param_value(p))", "            opti.set_value(hcat(self.P_control[i][::-1]), stage._param_value(p))", ['C09']),
+ ('param-value-stale', 'stage.py', "                self._method.set_value(self, self.master._method, parameter, value)      ", "                self._method.set_value(self, self.master._method, parameter, value) if not is_equal(parameter, self.parameters[''][0]) else None", ['C09']),
 ]
 
 def main():
